@@ -11,6 +11,7 @@ NAME = "nurimaze"
 MODULE = "cspuz.puzzle.nurimaze"
 FUNC = "solve_nurimaze"
 TIER1 = ("Nurimaze", "solve_nurimaze_model")
+TIER1_PRIM = ("NurimazePrim", "solve_nurimaze_model_prim")
 MAX_ANSWERS = 70000
 
 
